@@ -20,7 +20,7 @@ pvars == <<tid, l, rejected, prev>>
 NoPrev == [t |-> "noprev"]
 
 \* unions: the value machine carries no tags, so only what does not depend on them is specified for union-typed arrays
-UnionSafe(ev) == \/ ev.op \in {"rt_buffers", "rt_pickle", "rt_json", "rt_iter", "same", "concat0", "concat2", "concatperm", "mask"}
+UnionSafe(ev) == \/ ev.op \in {"rt_buffers", "rt_pickle", "rt_json", "rt_iter", "same", "concat0", "concat2", "concat3", "concatperm", "mask"}
                  \/ ev.op = "flatten" /\ ev.args.axis = AxisNone
 Expected(ev) ==
   IF HasUnion(ev.T) /\ ~UnionSafe(ev) THEN Unspec ELSE
@@ -46,6 +46,8 @@ Expected(ev) ==
     \* the second operand's record fields are stored in another order: same records, matched by NAME (C08)
     \* ANOTHER array (any type) appended: the elements of the first followed by those of the second, each unchanged (C08)
     [] ev.op = "concat2" -> Ok(VList(ev.v.xs \o a.w.xs))
+    \* three operands in one call: x, another array, x again
+    [] ev.op = "concat3" -> Ok(VList(ev.v.xs \o a.w.xs \o ev.v.xs))
     [] ev.op = "concatperm" -> Ok(VList(ev.v.xs \o ev.v.xs))
     \* broadcast_arrays(A, A with its fields declared in the opposite order): fields pair by name, so the second output,
     \* read back in A's field order, is A (C04)
